@@ -522,46 +522,72 @@ pub fn outcome_of(r: &Result<SearchAlgorithmResult, SearchError>) -> (String, St
     }
 }
 
-/// turns the recorded call stream of ONE run_a_star invocation into Relax events
+/// turns the recorded call stream of ONE run_a_star invocation into Relax events: one event per
+/// maximal run of calls about the same candidate edge (frontier test, access, traversal); estimate
+/// calls attach to the current group. Nothing is assumed about which of the calls the loop makes.
 pub fn relax_events(lg: &Lg, calls: &[Call]) -> Vec<Value> {
-    let mut evs = vec![];
-    let mut i = 0;
-    while i < calls.len() {
-        match &calls[i] {
-            Call::F { e, prev, state, ok } => {
-                let mut ev = json!({"ev": "Relax", "e": e + 1, "last": prev.map(|p| p + 1).unwrap_or(0),
-                                    "valid": ok, "cs": lg.st(state), "est": -1, "as": [], "st": [], "tb": [], "te": 0, "ae": []});
-                i += 1;
-                if *ok {
-                    if let Some(Call::A { e1, e2, after }) = calls.get(i) {
-                        ev["as"] = lg.st(after);
-                        ev["ae"] = json!([e1 + 1, e2 + 1]);
-                        i += 1;
-                    }
-                    if let Some(Call::T { e: te, before, after }) = calls.get(i) {
-                        if ev["as"].as_array().map(|a| a.is_empty()).unwrap_or(true) {
-                            ev["as"] = lg.st(before);
-                        }
-                        ev["tb"] = lg.st(before);
-                        ev["te"] = json!(te + 1);
-                        ev["st"] = lg.st(after);
-                        i += 1;
-                    } else {
-                        ev["missingT"] = json!(true);
-                    }
-                    if let Some(Call::E { src, dst: _ }) = calls.get(i) {
-                        ev["est"] = json!(src + 1); // estimate requested for this vertex: label improved
-                        i += 1;
-                    }
-                }
+    let mut evs: Vec<Value> = vec![];
+    let mut cur: Option<(usize, Value)> = None;
+    fn fresh(e: usize) -> Value {
+        json!({"ev": "Relax", "e": e + 1, "last": -1, "valid": true, "fcalled": false, "cs": [], "est": -1,
+               "as": [], "st": [], "tb": [], "te": 0, "ae": []})
+    }
+    for c in calls {
+        let edge = match c {
+            Call::F { e, .. } => Some(*e),
+            Call::T { e, .. } => Some(*e),
+            Call::A { e1, e2, .. } => match &cur {
+                // the candidate is whichever of the two edges the current group is about (forward: e2, reverse: e1)
+                Some((ce, _)) if ce == e1 || ce == e2 => Some(*ce),
+                _ => None,
+            },
+            Call::E { .. } => None,
+        };
+        let start_new = match (c, &cur) {
+            (Call::E { .. }, _) => false,
+            (Call::A { .. }, Some(_)) if edge.is_some() => false,
+            (Call::A { .. }, _) => true,
+            // a second frontier test or traversal of the same edge starts a new group (parallel expansions of one edge do not exist)
+            (Call::F { e, .. }, Some((ce, ev))) => ce != e || ev["fcalled"].as_bool().unwrap_or(false),
+            (Call::T { e, .. }, Some((ce, ev))) => ce != e || ev["te"].as_u64().unwrap_or(0) != 0,
+            (_, None) => true,
+        };
+        if start_new {
+            if let Some((_, ev)) = cur.take() {
                 evs.push(ev);
             }
-            other => {
-                // a call outside the F -> [A] -> T -> [E] pattern: logged as is, no spec action accepts it
-                evs.push(json!({"ev": "Stray", "call": format!("{:?}", other)}));
-                i += 1;
-            }
+            let e = match c {
+                Call::F { e, .. } | Call::T { e, .. } => *e,
+                Call::A { e2, .. } => *e2,
+                Call::E { .. } => unreachable!(),
+            };
+            cur = Some((e, fresh(e)));
         }
+        match (c, cur.as_mut()) {
+            (Call::F { e: _, prev, state, ok }, Some((_, ev))) => {
+                ev["fcalled"] = json!(true);
+                ev["valid"] = json!(ok);
+                ev["last"] = json!(prev.map(|p| p + 1).unwrap_or(0));
+                ev["cs"] = lg.st(state);
+            }
+            (Call::A { e1, e2, after }, Some((_, ev))) => {
+                ev["as"] = lg.st(after);
+                ev["ae"] = json!([e1 + 1, e2 + 1]);
+            }
+            (Call::T { e, before, after }, Some((_, ev))) => {
+                ev["tb"] = lg.st(before);
+                ev["te"] = json!(e + 1);
+                ev["st"] = lg.st(after);
+            }
+            (Call::E { src, .. }, Some((_, ev))) => {
+                ev["est"] = json!(src + 1);
+            }
+            (Call::E { .. }, None) => {}
+            _ => {}
+        }
+    }
+    if let Some((_, ev)) = cur.take() {
+        evs.push(ev);
     }
     evs
 }
